@@ -141,14 +141,15 @@ Definition grads_step (params : list Q) (st : K * list NanQ.t * NanQ.t) (bn : B 
 Definition client_grads (params : list Q) (mc : mclient) : list NanQ.t * NanQ.t :=
   let '(_, gs, ns) := fold_left (grads_step params) (snd mc) (c_key (fst mc), tree_zeros_like (vlift params), NanQ.of_Q 0) in
   (gs, ns).
-(* tree_sum over the clients' (grads_sum, num_sum) pairs, then tree_inverse_weight;
-   None: tree_sum of nothing is None and the tuple unpacking raises TypeError *)
-Definition server_grads (params : list Q) (clients : list mclient) : option (list NanQ.t) :=
+(* grads_and_num_sum = tree_sum(clients' (grads_sum, num_sum) pairs);
+   `if grads_and_num_sum is None: tree_zeros_like(params)` (a round without clients)
+   `else: tree_inverse_weight(grads_sum_total, num_sum_total)` *)
+Definition server_grads (params : list Q) (clients : list mclient) : list NanQ.t :=
   match map (client_grads params) clients with
-  | [] => None
+  | [] => tree_zeros_like (vlift params)
   | first :: rest =>
       let '(gs, ns) := fold_left (fun acc x => (tree_add (fst acc) (fst x), NanQ.add (snd acc) (snd x))) rest first in
-      Some (tree_inverse_weight gs ns)
+      tree_inverse_weight gs ns
   end.
 
 (* client programs: the optimizer state is the server's, never updated locally *)
@@ -173,12 +174,9 @@ Definition mime_step (st : mstate) (batch : B) : mstate :=
 Definition mime_round (step : mstate -> B -> mstate) (use_cv : bool) (server_lr : Q)
   (st : list Q * S) (clients : list mclient) : option (list Q * S) :=
   let '(params, opt_state) := st in
-  match server_grads params clients with
+  match unlift (server_grads params clients) with
   | None => None
-  | Some sg =>
-    match unlift sg with
-    | None => None
-    | Some sgq =>
+  | Some sgq =>
       let cv := if use_cv then sgq else [] in
       let outputs := map (fun mc => (c_id (fst mc),
                         vsub params (m_params (fold_left step (c_batches (fst mc)) (mkM params opt_state (c_key (fst mc)) params cv)))))
@@ -193,7 +191,6 @@ Definition mime_round (step : mstate -> B -> mstate) (use_cv : bool) (server_lr 
           let '(opt_state', _) := copt_apply sgq opt_state params in
           Some (params', opt_state')
       end
-    end
   end.
 Definition mimelite := mime_round mimelite_step false.
 Definition mime := mime_round mime_step true.
